@@ -1,57 +1,62 @@
 # run parameters and manifest texts of the C17 check (read by ../props.py)
-_PARSE = dict(engine="directinvoke", test="TestC17Parse",
-              quick=dict(checks=20000, shards=8, timeout=600),
-              thorough=dict(checks=60000, shards=14, timeout=2400, race=True, race_frac=0.05))
-_COPY = dict(engine="directinvoke", test="TestC17Copy",
-             quick=dict(checks=12000, shards=8, timeout=600),
-             thorough=dict(checks=40000, shards=14, timeout=2400, race=True, race_frac=0.05))
-_BUCKET = dict(engine="bandwidthlimiter", test="TestC17Bucket",
-               quick=dict(checks=800, shards=8, timeout=600),
-               thorough=dict(checks=3000, shards=14, timeout=2400, race=True, race_frac=0.1))
-
-PROP = dict(
-    engine="directinvoke", test="TestC17Parse", level="exploration",
-    quick=_PARSE["quick"],
-    thorough=dict(_PARSE["thorough"], fuzz=[("FuzzC17ReceiveSeq", 90, "directinvoke"), ("FuzzC17ReceivePair", 90, "directinvoke")]),
-    parts=[_PARSE, _COPY, _BUCKET],
-    rule="three parts. (a) TestC17Parse: sequences of 2-8 direct-invoke requests, each with a random subset of MaxPayloadSize, InvokeResponseMode, "
-         "ResponseBandwidthRate, ResponseBandwidthBurstSize, Customer-Headers (valid / invalid / boundary values, empty values) and identity fields "
+PROP = {'engine': 'directinvoke',
+ 'test': 'TestC17Parse',
+ 'level': 'exploration',
+ 'quick': {'checks': 20000, 'shards': 8, 'timeout': 600},
+ 'thorough': {'checks': 60000,
+              'shards': 14,
+              'timeout': 2400,
+              'race': True,
+              'race_frac': 0.05,
+              'fuzz': [('FuzzC17ReceiveSeq', 90, 'directinvoke'), ('FuzzC17ReceivePair', 90, 'directinvoke')]},
+ 'parts': [{'engine': 'directinvoke',
+            'test': 'TestC17Parse',
+            'quick': {'checks': 20000, 'shards': 8, 'timeout': 600},
+            'thorough': {'checks': 60000, 'shards': 14, 'timeout': 2400, 'race': True, 'race_frac': 0.05}},
+           {'engine': 'directinvoke',
+            'test': 'TestC17Copy',
+            'quick': {'checks': 12000, 'shards': 8, 'timeout': 600},
+            'thorough': {'checks': 40000, 'shards': 14, 'timeout': 2400, 'race': True, 'race_frac': 0.05}},
+           {'engine': 'bandwidthlimiter',
+            'test': 'TestC17Bucket',
+            'quick': {'checks': 800, 'shards': 8, 'timeout': 600},
+            'thorough': {'checks': 3000, 'shards': 14, 'timeout': 2400, 'race': True, 'race_frac': 0.1}}],
+ 'rule': 'three parts. (a) TestC17Parse: sequences of 2-8 direct-invoke requests, each with a random subset of MaxPayloadSize, InvokeResponseMode, '
+         'ResponseBandwidthRate, ResponseBandwidthBurstSize, Customer-Headers (valid / invalid / boundary values, empty values) and identity fields '
          "matching the reservation token or not (wrong / empty / other-case / previous request's ids, expired reservation). Oracle: every request is "
-         "judged on its own (package variables at their initial values) against a pure specification of one request (defaults when a header is absent; "
-         "admissible error set when several things are wrong; parsed Invoke; deadline = arrival + token timeout with arrival bracketed by the harness's "
-         "clock readings; response headers; settings after the call), and its observation inside the sequence must equal the observation on its own; a "
-         "difference is keyed by the left-over setting that reproduces it alone (C17/parse/history-dependent/<variable>). Bandwidth settings are only "
-         "compared for streaming requests (the buffered path never consults them). Non-trivial: some optional header is absent in a request after an "
-         "earlier request carried it. Native fuzz (thorough): two requests decoded from fuzz bytes / from typed header strings, same oracle. "
-         "(b) TestC17Copy: SendDirectInvokeResponse with limit L in {-1, 0, 1, 2..300, 301..70000, default}, payload length L-1, L, L+1, L+2, 0 or random, "
-         "random read chunking (1 byte .. 1 MiB, data+EOF variant), fault in {none, reader error at k, writer error at k (partial or full acceptance), "
-         "reset on interruptedResponseChan when k bytes were handed out (with a cancellable request whose connection close releases the reader, or "
-         "without)}, buffered / streaming / streaming error-response path, recording flushing ResponseWriter. Oracle: forwarded bytes are a prefix of "
-         "the payload; a fault that fired => Truncated + *ErrTruncatedResponse (also when L+1 bytes were accepted together with a writer error); else "
-         "length > L => Oversized, exactly L+1 bytes, *ErrorResponseTooLargeDI; else Complete, all bytes, nil; an accepted reset is acknowledged with "
-         "metrics; return within 10 s. Non-trivial: length within 1 of L, or a fault that fired. (c) TestC17Bucket: NewBucket(capacity 1..5000, initial "
-         "0..capacity, refill 1..4*capacity+3, interval 1-5 ms) and scripts of writes of 1..3*capacity bytes and pauses through the "
-         "BandwidthLimitingWriter into a writer that stamps each forwarded write with the runtime's monotonic clock since the first Write began; fixed "
-         "cases through NewStreamedResponseWriter at the corners of the rate/burst header ranges (125 ms interval). Oracle: cumulative bytes at a write "
-         "stamped t <= initial + min(refill,capacity)*floor(t/interval) (no tolerance); a forwarded write <= capacity; any run of forwarded writes <= "
-         "capacity + min(refill,capacity)*(floor(window/interval)+3); bytes complete and in order; finished within 10x the needed refill intervals + 5 s. "
-         "Non-trivial: total bytes > capacity. Distinct = distinct case hash.",
-    assumptions=[
-        "runtime timers never fire early on the monotonic clock the harness reads (runtime.nanotime); all delays only loosen the envelope",
-        "a header present with an empty value is treated as absent (http.Header.Get cannot tell them apart)",
-        "when a request is invalid in several ways any of the applicable errors is admissible (the property does not order them)",
-        "Customer-Headers values outside the documented shape (data after the JSON document, null, member names in another letter case, duplicates) are "
-        "not judged by the specification, only by history independence",
-        "for a reset on a path without an observable cancellation event (no cancellable request) and a reader that goes on delivering, a completed copy "
-        "with a truthful Complete/Oversized trailer is accepted (label reset:race-lost)",
-    ],
-    level_text="random search with an independent per-request specification plus a differential run of each request in a pristine state (history "
-               "independence), a ground-truth classification oracle for the copy, and a tolerance-free token envelope for the bucket; coverage-guided "
-               "native fuzzing of request pairs and a -race build in the thorough tier. Exploration only.",
-    level_note="the per-request settings are package variables and the checks drive them sequentially (one request at a time, as the server does); "
-               "concurrent requests are out of scope. In part (b) the settings are written directly, not through the parser. The +3 in the window "
-               "bound is the exact worst case of the tick count, so a bucket that overfills by less than 3 refills after an idle period is only "
-               "caught when refill > capacity or over longer windows.",
-    technique="property-based testing (rapid): independent specification + differential (pristine state vs in-sequence) oracle; fault injection through "
-              "instrumented reader/writer/connection; timing envelope on a monotonic clock; native Go fuzzing",
-)
+         'judged on its own (package variables at their initial values) against a pure specification of one request (defaults when a header is '
+         'absent; admissible error set when several things are wrong; parsed Invoke; deadline = arrival + token timeout with arrival bracketed by '
+         "the harness's clock readings; response headers; settings after the call), and its observation inside the sequence must equal the "
+         'observation on its own; a difference is keyed by the left-over setting that reproduces it alone (C17/parse/history-dependent/<variable>). '
+         'Bandwidth settings are only compared for streaming requests (the buffered path never consults them). Non-trivial: some optional header is '
+         'absent in a request after an earlier request carried it. Native fuzz (thorough): two requests decoded from fuzz bytes / from typed header '
+         'strings, same oracle. (b) TestC17Copy: SendDirectInvokeResponse with limit L in {-1, 0, 1, 2..300, 301..70000, default, huge: 2^31-1, '
+         '2^31, 2^40, 2^63-2, 2^63-1 (the largest values the header validation accepts)}, payload length L-1, L, L+1, L+2, 0 or random, random read '
+         'chunking (1 byte .. 1 MiB, data+EOF variant), fault in {none, reader error at k, writer error at k (partial or full acceptance), reset on '
+         'interruptedResponseChan when k bytes were handed out (with a cancellable request whose connection close releases the reader, or without)}, '
+         'buffered / streaming / streaming error-response path, recording flushing ResponseWriter. Oracle: forwarded bytes are a prefix of the '
+         'payload; a fault that fired => Truncated + *ErrTruncatedResponse (also when L+1 bytes were accepted together with a writer error); else '
+         'length > L => Oversized, exactly L+1 bytes, *ErrorResponseTooLargeDI; else Complete, all bytes, nil; an accepted reset is acknowledged '
+         'with metrics; return within 10 s. Non-trivial: length within 1 of L, or a fault that fired. (c) TestC17Bucket: NewBucket(capacity 1..5000, '
+         'initial 0..capacity, refill 1..4*capacity+3, interval 1-5 ms) and scripts of writes of 1..3*capacity bytes and pauses through the '
+         "BandwidthLimitingWriter into a writer that stamps each forwarded write with the runtime's monotonic clock since the first Write began; "
+         'fixed cases through NewStreamedResponseWriter at the corners of the rate/burst header ranges (125 ms interval). Oracle: cumulative bytes '
+         'at a write stamped t <= initial + min(refill,capacity)*floor(t/interval) (no tolerance); a forwarded write <= capacity; any run of '
+         'forwarded writes <= capacity + min(refill,capacity)*(floor(window/interval)+3); bytes complete and in order; finished within 10x the '
+         'needed refill intervals + 5 s. Non-trivial: total bytes > capacity. Distinct = distinct case hash.',
+ 'assumptions': ['runtime timers never fire early on the monotonic clock the harness reads (runtime.nanotime); all delays only loosen the envelope',
+                 'a header present with an empty value is treated as absent (http.Header.Get cannot tell them apart)',
+                 'when a request is invalid in several ways any of the applicable errors is admissible (the property does not order them)',
+                 'Customer-Headers values outside the documented shape (data after the JSON document, null, member names in another letter case, '
+                 'duplicates) are not judged by the specification, only by history independence',
+                 'for a reset on a path without an observable cancellation event (no cancellable request) and a reader that goes on delivering, a '
+                 'completed copy with a truthful Complete/Oversized trailer is accepted (label reset:race-lost)'],
+ 'level_text': 'random search with an independent per-request specification plus a differential run of each request in a pristine state (history '
+               'independence), a ground-truth classification oracle for the copy, and a tolerance-free token envelope for the bucket; '
+               'coverage-guided native fuzzing of request pairs and a -race build in the thorough tier. Exploration only.',
+ 'level_note': 'the per-request settings are package variables and the checks drive them sequentially (one request at a time, as the server does); '
+               'concurrent requests are out of scope. In part (b) the settings are written directly, not through the parser. The +3 in the window '
+               'bound is the exact worst case of the tick count, so a bucket that overfills by less than 3 refills after an idle period is only '
+               'caught when refill > capacity or over longer windows.',
+ 'technique': 'property-based testing (rapid): independent specification + differential (pristine state vs in-sequence) oracle; fault injection '
+              'through instrumented reader/writer/connection; timing envelope on a monotonic clock; native Go fuzzing'}
